@@ -98,6 +98,9 @@ PROPS = {
                           + [('c13_op_' + o, 'complete') for o in C13_OPS if o not in C13_SLOW_FIRST and o not in ('multiply', 'divide', 'modulus')]
                           + [('c13_op_nonconstant_argument_propagates', 'complete')]
                           + [('c13_cast_to_' + t, 'complete') for t in ('bool', 'int', 'uint', 'half', 'float', 'double', 'enum_int', 'enum_uint')],
+             # kissat decides these 2-3x faster than the default CaDiCaL; the per-assertion reachability covers cost one SAT call
+             # each and are replaced by the explicit kani::cover!(true) at the end of every harness
+             'kani_args': ['--solver', 'kissat', '--no-assertion-reach-checks'],
              'tier': 'quick'},
             {'module': 'ir/ir_types.rs',
              'harnesses': [('c13_to_uint64_is_the_nonnegative_integer_value', 'complete')], 'tier': 'quick'},
